@@ -9,6 +9,8 @@ NOT_APPLICABLE = {
     "C03": "needs the frozen RFC 6716 reference decoder/test vectors (none offline) and PCM tolerance of floating-point DSP; no transition structure for a TLA+ model (DESIGN 6.1); the normative state-machine layers are covered under C06/C08/C17/C18/C01",
     "C04": "purely numerical fidelity (SNR, band energy, delay by correlation); nothing for a TLA+ specification to decide; the lookahead getter is covered under C11 (DESIGN 6.1)",
 }
+# checks the coordinator has reviewed and released (a check file that exists but is not listed is work in progress)
+RELEASED = ["C06", "C20"]
 PENDING = "check not built yet in this round (see DESIGN section 10 for the build order)"
 
 
@@ -18,6 +20,8 @@ def main():
     for p in props:
         pid = p["id"]
         try:
+            if pid not in RELEASED:
+                raise ModuleNotFoundError(pid)
             mod = importlib.import_module("checks." + pid)
             meta = mod.META
         except (ModuleNotFoundError, AttributeError):
